@@ -166,15 +166,20 @@ Definition writer_run (k : wkind) (with_header : bool) (sep : N) (rows : list (l
 
 (* SaveObject<CsvArchive>(std::vector<Row>): CsvWriteRootScope constructor (ValidateSeparator, writer with
    header), OpenArrayScope, and per element a CCsvWriteObjectScope whose members call WriteValue and whose
-   DESTRUCTOR calls NextLine (csv_archive.h 73-76): an exception thrown there leaves a destructor that is
-   implicitly noexcept, i.e. std::terminate. *)
+   DESTRUCTOR calls NextLine.  Since fix 0a28cd4 the destructor catches an exception of NextLine, hands it to the
+   writer (DeferError keeps the first one) and CsvWriteRootScope::Finalize rethrows it: SaveObject ends with that
+   exception.  WriteValue cannot fail in this model, so the first NextLine error is the outcome (before the fix:
+   the exception left the destructor, i.e. std::terminate - finding F18). *)
 Fixpoint save_rows (k : wkind) (sep : N) (w : wstate) (rows : list (list (list N * list N))) : outcome wstate :=
   match rows with
   | [] => Ok w
   | r :: rows' =>
     match next_line k true (write_values k true sep w r) with
     | Ok w' => save_rows k sep w' rows'
-    | _ => Terminate
+    | Err e => Err e
+    | Terminate => Terminate
+    | UB => UB
+    | OutOfFuel => OutOfFuel
     end
   end.
 
